@@ -267,6 +267,62 @@ theorem C14_counterexample_badoptions_no_message :
     (readSol true false 0 0 ⟨1, .all, .all, .all⟩ cexOpts).hasMsg = false ∧
     (readSol true true 0 0 ⟨1, .all, .all, .all⟩ cexOpts).hasMsg = true := by decide
 
+/-! ## the `Long Options[14]` array (statement audit, ROUND 4)
+
+The model indexes the options with the totalised `List.getD`; the real code indexes a fixed array `Long Options[14]`.  These theorems
+state the guard the real code relies on: whenever an options block is accepted (text or binary), exactly `nOpts + 5 ≤ 14` entries were
+stored, so `z[1] = Options[nOpts+2]` and `z[3] = Options[nOpts+4]` (and every index the reader writes) are inside the array and inside the
+model's list — `getD` never falls back to its default. -/
+
+theorem readIntLines_length {k : Nat} {inp r : Bytes} {vs : List Int} (h : readIntLines k inp = .ok (vs, r)) : vs.length = k := by
+  induction k generalizing inp vs r with
+  | zero => simp [readIntLines] at h; rw [h.1]; rfl
+  | succ k ih =>
+    unfold readIntLines at h
+    split at h
+    · simp at h
+    · split at h
+      · simp at h
+      · rename_i v r1 _ vs' r2 h2
+        simp at h
+        rw [← h.1]; simp [ih h2]
+
+theorem optHeader_bound {o0 o2 : Int} {n : Nat} {vb : Bool} (h : optHeader o0 o2 = some (n, vb)) : 1 ≤ n ∧ n ≤ 9 := by
+  unfold optHeader at h
+  split at h
+  · simp at h
+  · split at h <;> simp at h <;> omega
+
+theorem C14_options_array_bound_text (inp r : Bytes) (o : Opts) (h : optsText inp = .ok (o, r)) :
+    o.opts.length = o.nOpts + 5 ∧ o.nOpts + 5 ≤ 14 ∧ 1 ≤ o.nOpts := by
+  unfold optsText at h
+  split at h
+  · simp at h
+  · rename_i o4 r1 h4
+    have l4 := readIntLines_length h4
+    split at h
+    · simp at h
+    · rename_i nOpts vb hh
+      have hb := optHeader_bound hh
+      split at h
+      · simp at h
+      · rename_i more r2 hm
+        have lm := readIntLines_length hm
+        by_cases hv : vb = true
+        · simp only [hv, if_true] at h
+          split at h
+          · simp at h
+          · split at h
+            · simp at h
+            · simp at h; obtain ⟨h1, _⟩ := h; subst h1; simp [l4, lm]; omega
+        · simp only [hv] at h
+          simp at h; obtain ⟨h1, _⟩ := h; subst h1; simp [l4, lm]; omega
+
+/-- … and every later use of the options (`z[1]`, `z[3]`) reads an entry that was stored -/
+theorem C14_options_index_in_bounds (inp r : Bytes) (o : Opts) (h : optsText inp = .ok (o, r)) (i : Nat) (hi : i ≤ 3) :
+    o.nOpts + 1 + i < o.opts.length := by
+  have := C14_options_array_bound_text inp r o h; omega
+
 /-! ## translator ties (ROUND 4)
 
 `MpVerif.Gen.SolGuards` is regenerated on every run by `translators/gen_solguards.py` from the text of
@@ -387,7 +443,8 @@ theorem C14_gen_opts_header (o0 o2 : Int) (h : -2147483648 ≤ o0 ∧ o0 ≤ 214
 /-- reader: `SR.h.kind & 4` selects the real-valued suffix reader exactly when the model's `sufKind` says `dpair`
 (kinds that pass `sufheadcheck` are 0..15) -/
 theorem C14_gen_suffix_is_real : ∀ k : Fin 16,
-    suffix_is_real (k.val : Int) = .ret (if sufKind (k.val : Int) = .dpair then 1 else 0) := by decide
+    suffix_is_real_bin (k.val : Int) = .ret (if sufKind (k.val : Int) = .dpair then 1 else 0) ∧
+    suffix_is_real_text (k.val : Int) = .ret (if sufKind (k.val : Int) = .dpair then 1 else 0) := by decide
 
 theorem cband_three (x : Nat) (h : x < 4294967296) : cband (x : Int) 3 = ((x % 4 : Nat) : Int) := by
   unfold cband sx64
@@ -456,5 +513,29 @@ example : readSol false false 3 0 readAll [109, 10, 10, 49, 10, 50, 10] =
     ⟨.earlyEof, [.msg [109, 10] 0, .primal false ⟨3, [⟨0, [49]⟩, ⟨0, [50]⟩], .earlyEof, 0⟩], true⟩ := by decide
 
 example : SanePol readAll := ⟨trivial, trivial, trivial⟩
+/-- a handler that reads everything / stops silently after 2 values / rejects a suffix after 1 value with Bad_Suffix -/
+example : SanePol ⟨0, .whileNz, .some 2, .someErr 1 .badSuffix⟩ := ⟨trivial, trivial, ⟨rfl, by decide⟩⟩
+
+/-- hypotheses of `C14_failure_reported` on a concrete run: the truncated primal vector is the last event, the result is EarlyEOF -/
+example : ∃ pre e post v, (readSol true true 3 0 readAll [109, 10, 10, 49, 10, 50, 10]).evs = pre ++ e :: post ∧ e.vec? = some v ∧ ¬ v.complete ∧
+    post = [] ∧ (readSol true true 3 0 readAll [109, 10, 10, 49, 10, 50, 10]).code = .earlyEof :=
+  ⟨[.msg [109, 10] 0], .primal false ⟨3, [⟨0, [49]⟩, ⟨0, [50]⟩], .earlyEof, 0⟩, [], ⟨3, [⟨0, [49]⟩, ⟨0, [50]⟩], .earlyEof, 0⟩,
+    by decide, rfl, by simp [VecOut.complete], rfl, by decide⟩
+
+/-- hypotheses of `C14_hostile_counts_rejected`: an options block stating −1 dual values for a problem with 2 constraints -/
+example : (⟨[3, 1, 1, 0, 2, -1, 2, 2], 3, false, []⟩ : Opts).z 1 < 0 ∧ (⟨[3, 1, 1, 0, 2, -1, 2, 2], 3, false, []⟩ : Opts).z 3 ≤ 2 := by
+  unfold Opts.z; decide
+
+/-- hypotheses of `C14_options_array_bound_text`: an accepted options block with the maximum of 9 options fills exactly `Options[0..13]` -/
+example : ∃ o r, optsText (str "9\n1\n1\n1\n1\n1\n1\n1\n1\n1\n0\n0\n0\n0\nrest") = .ok (o, r) ∧ o.opts.length = 14 ∧ r = str "rest" :=
+  ⟨⟨[9, 1, 1, 1, 1, 1, 1, 1, 1, 1, 0, 0, 0, 0], 9, false, []⟩, str "rest", by rfl, rfl, rfl⟩
+
+/-- the generated decisions on concrete arguments (both directions of each guard) -/
+example : MpVerif.Gen.SolGuards.sufheadcheck 0 1 4 8 2 = .ret 0 ∧ MpVerif.Gen.SolGuards.sufheadcheck 0 1 4 8 10 = .ret 1 ∧
+    MpVerif.Gen.SolGuards.sufheadcheck 16 1 4 0 0 = .ret 1 ∧ MpVerif.Gen.SolGuards.sufheadcheck 0 1 300000000 0 0 = .ret 1 := by decide
+example : MpVerif.Gen.SolGuards.count_guard 2 (-1) 2 2 = .ret 3 ∧ MpVerif.Gen.SolGuards.count_guard 2 2 2 2 = .ret 0 ∧
+    MpVerif.Gen.SolGuards.lget_step 214748364 57 = .ret (-1) ∧ MpVerif.Gen.SolGuards.lget_step 214748363 57 = .ret 2147483639 := by decide
+example : MpVerif.Gen.SolGuards.is_opts_record 39 = .ret 1 ∧ MpVerif.Gen.SolGuards.is_opts_record 40 = .ret 0 ∧
+    MpVerif.Gen.SolGuards.is_opts_record 67 = .ret 0 ∧ MpVerif.Gen.SolGuards.rec_len 536870912 = .ret 0 := by decide
 
 end MpVerif.C14
